@@ -75,6 +75,7 @@ class Ctx:
         self.servers = []
         self.extra_cov = {}
         self.mc_runs = []
+        self.fired_segments = {}
         self.t_start = time.time()
         self.quick = tier == 'quick'
         self.counter = 0
@@ -158,6 +159,73 @@ class Ctx:
                                  trace_path=path)
         self.violations.append(('trace %s rejected at event %s' % (label or path, res['rejected_at']), vp))
         return False
+
+    def validate_segments(self, trace, label, cap=80, module='FerrousTrace'):
+        """A trace made of independent segments (each starts with a `reset` event followed by a `note` naming it).
+        A rejection removes the offending segment and the rest is validated again, so every failing segment is
+        found. Segments matching an open finding's `segment` regex are known findings, the others violations."""
+        trace.close()
+        lines = open(trace.path).readlines()
+        self.traces += 1
+        self.events += len(lines)
+        if len(self.samples) < 6:
+            self.samples.append(self.sample_of(trace.path))
+        rejected = []
+        rounds = 0
+        while True:
+            rounds += 1
+            cur = os.path.join(self.out, 'seg-%s-%d.ndjson' % (label, rounds))
+            open(cur, 'w').writelines(lines)
+            wd = os.path.join(self.out, 'tlc-seg-' + label)
+            res = tlc.validate_trace(cur, wd, deviations=self.open_devs.keys(), module=module, timeout=1200)
+            self.trace_states += res.get('states', 0)
+            self.mc_transitions_traces = getattr(self, 'mc_transitions_traces', 0) + res.get('transitions', 0)
+            if res['tool_error']:
+                sys.stdout.write(res['out'][-3000:])
+                raise ToolError('TLC failed while validating %s' % cur)
+            if res['ok']:
+                for d in res['devs']:
+                    self.fired.setdefault(d, cur)
+                break
+            at = res['rejected_at']
+            start = at - 1
+            while start > 0 and json.loads(lines[start]).get('k') != 'reset':
+                start -= 1
+            end = at
+            while end < len(lines) and json.loads(lines[end]).get('k') != 'reset':
+                end += 1
+            name = '?'
+            for l in lines[start:end]:
+                e = json.loads(l)
+                if e.get('k') == 'note':
+                    name = e.get('text', '?')
+                    break
+            tail = res['out'][res['out'].find('"TRACE-REJECTED-AT"') - 2:][:3000]
+            rejected.append({'segment': name, 'event': render_event(json.loads(lines[at - 1])), 'tlc': tail,
+                             'lines': lines[start:end]})
+            del lines[start:end]
+            if len(rejected) >= cap:
+                self.note('segment validation capped at %d rejections for %s' % (cap, label))
+                break
+        self.extra_cov['segments_rejected'] = self.extra_cov.get('segments_rejected', 0) + len(rejected)
+        for r in rejected:
+            known = None
+            for f in self.findings.get('open', []):
+                pat = f.get('segment')
+                if pat and re.search(pat, r['segment']):
+                    known = f
+                    break
+            if known:
+                self.fired_segments.setdefault(known['id'], []).append(r['segment'])
+            else:
+                d = os.path.join(OUT, 'violations')
+                os.makedirs(d, exist_ok=True)
+                base = os.path.join(d, '%s-%d-%d' % (self.prop, int(time.time()), len(self.violations)))
+                open(base + '.ndjson', 'w').writelines(r['lines'])
+                json.dump({'kind': 'segment', 'label': r['segment'], 'rejected_at': None, 'event': r['event'], 'tlc': r['tlc'],
+                           'trace': base + '.ndjson', 'property': self.prop, 'seed': self.seed}, open(base + '.json', 'w'), indent=1)
+                self.violations.append(('segment %s rejected: %s' % (r['segment'], r['event'][:160]), base + '.json'))
+        return rejected
 
     def sample_of(self, path, n=6):
         out = []
@@ -270,6 +338,10 @@ def main(argv):
             mod.run(ctx)
         level, rule, assumptions = mod.LEVEL, mod.RULE, mod.ASSUMPTIONS
         write_evidence(ctx, level, rule, assumptions)
+        for fid, segs in sorted(ctx.fired_segments.items()):
+            f = [x for x in ctx.findings.get('open', []) if x['id'] == fid][0]
+            pid = prop if prop in f.get('properties', [prop]) else f.get('properties', [prop])[0]
+            print('KNOWN-FINDING: property=%s %s [%s; %d segments, e.g. %s]' % (pid, f.get('what', fid), fid, len(segs), segs[0]))
         for d, where in sorted(ctx.fired.items()):
             f = ctx.open_devs.get(d, {})
             pid = prop if prop in f.get('properties', [prop]) else f.get('properties', [prop])[0]
